@@ -31,7 +31,7 @@ def gen_side(rng, times, keys, rich):
             else:
                 x = [0, 0, 0, 0, 0, ""]
             if rng.random() < 0.25:
-                holds.append([t, c, rng.choice([50.0, 250.0, 1000.0])])
+                holds.append([t, c, rng.choice([50.0, 250.0, 1000.0, 0.0])])
                 lx.append(x)
             else:
                 hits.append([t, c])
